@@ -4,6 +4,7 @@ CONSTANTS
   MaxTxPerBlock = 1
   MaxOps = 100000
   Window = 1
+  BlockBudget = 1000
   ActiveTxs = {"t1", "t3"}
   KF_FrozenLedgerHeight = FALSE
   KF_PlayKeepsStaleReader = FALSE
